@@ -13,7 +13,7 @@ import ast
 from sa import AnalysisError
 from sa.astutil import dotted, src, stmt_text, params, find_stmts, calls_in, method_name, walk_no_nested, const, strip_docstring
 from sa.facts import Order
-from sa.guards import paths_to, decompose, as_compare
+from sa.guards import paths_to, decompose, as_compare, path_returns
 
 
 def range_aliases(fn):
@@ -312,10 +312,16 @@ def check_transfer(model, rep):
     # Sum: the four products
     f = model.func('evaluable:Sum._intbounds_impl')
     al = range_aliases(f.node)
-    rets = [norm_term(r.value, al) for r in find_stmts(f.body, lambda s: isinstance(s, ast.Return))]
-    want = ['(0, 0)', '(min(0, func.lo * func_shape_m1.hi), max(0, func.hi * func_shape_m1.hi))',
-            '(min(func.lo * func_shape_m1.lo, func.lo * func_shape_m1.hi), max(func.hi * func_shape_m1.lo, func.hi * func_shape_m1.hi))']
-    ok = rets == want
+    # decided per path (sa.guards.path_returns): whichever way the three cases are laid out (returns in an if/elif/else, or named lower/upper with one return)
+    want = {'(0, 0)': {'func_shape_m1.hi == 0': True},
+            '(min(0, func.lo * func_shape_m1.hi), max(0, func.hi * func_shape_m1.hi))': {'func_shape_m1.hi == 0': False, 'func_shape_m1.lo == 0': True},
+            '(min(func.lo * func_shape_m1.lo, func.lo * func_shape_m1.hi), max(func.hi * func_shape_m1.lo, func.hi * func_shape_m1.hi))': {'func_shape_m1.hi == 0': False, 'func_shape_m1.lo == 0': False}}
+    got = {}
+    for facts, val in path_returns(f.node):
+        nf = {norm_term(ast.parse(k, mode='eval').body, al): v for k, v in facts.items()}
+        got.setdefault(norm_term(val, al), []).append(nf)
+    rets = sorted(got)
+    ok = set(got) == set(want) and all(all(nf.get(k) == v for k, v in want[r].items()) for r in got for nf in got[r])
     rep.ob('R06.4', f.key, f.where(), ok, 'Sum range = value range times length range (all sign cases, empty axis -> 0)' if ok else f'Sum._intbounds_impl returns {rets}', statement='sum-transfer')
 
 
